@@ -571,7 +571,8 @@ MenuOp(t) ==
   \/ M("drop") /\ \E h \in Handles(t) : DropSpan(t, h)
   \/ M("ctxl") /\ CtxL(t)
   \/ M("ctxs") /\ \E h \in Handles(t) : CtxS(t, h)
-  \/ M("exit") /\ Exit(t)
+  \* somebody must remain to finish the spans that are still alive
+  \/ M("exit") /\ ((\E u \in Threads \ {t} : tst[u] = "live") \/ \A h \in DOMAIN spans : spans[h].st # "live") /\ Exit(t)
 
 \* a fixed program step [op, args...]; handles are given as positions in creation order (nid values)
 Step(t, s) ==
@@ -626,7 +627,7 @@ Teardown(t) ==
      THEN CASE TopH(t).k = "l" -> LExit(t)
             [] TopH(t).k = "g" -> DropG(t)
             [] TopH(t).k = "c" -> LcDrop(t)
-     ELSE LET S == {h \in DOMAIN spans : spans[h].st = "live" /\ spans[h].own = t} IN
+     ELSE LET S == {h \in DOMAIN spans : spans[h].st = "live" /\ (spans[h].own = t \/ tst[spans[h].own] = "dead")} IN
           IF S # {} THEN DropSpan(t, CHOOSE x \in S : \A y \in S : y <= x)   \* children before parents
           ELSE Exit(t)     \* every thread ends by exiting: parked commands are flushed
   /\ UNCHANGED <<reg, cph, ci, batch, cown, active, nops, ncyc, nfl, pc, quiet>>
